@@ -57,7 +57,10 @@ def _task(arg):
         for qn in uses.get(c.name, []):
             for k in contracts:
                 if k.name == qn:
-                    use[k.key] = k
+                    if k.key in use:       # several contracts of one function: selected by argument kinds at the call
+                        use[k.key] = (use[k.key] if isinstance(use[k.key], list) else [use[k.key]]) + [k]
+                    else:
+                        use[k.key] = k
     try:
         r = verify_combo(world, c, combo, use, {})
     except Exception as e:
